@@ -39,7 +39,7 @@ def build(seed):
     edit = rnd.choice(EDITS)
     cmd = rnd.choice(COMMANDS)
     if edit == "rmchain":
-        ops.append({"op": "rmchain", "hist": hist})
+        ops.append({"op": "rmchain", "hist": hist, "leave_tmp": rnd.random() < 0.4})
         exp = 32
     elif edit == "wipe":
         # the folder is still there, everything in it is gone: an existing ascmhl folder without chain file
